@@ -66,6 +66,13 @@ pub fn check_pair(c: &CmpPair) -> Verdict {
     ensure!(v, (ra == &b) == (want == Ordering::Equal), sig("ref-eq-borrow"), "ref == &BigDecimal is {}", ra == &b);
     ensure!(v, (ra < rb) == (want == Ordering::Less), sig("ref-lt"), "ref < ref is {}", ra < rb);
     ensure!(v, (ra >= rb) == (want != Ordering::Less), sig("ref-ge"), "ref >= ref is {}", ra >= rb);
+    // references whose sign was flipped / dropped without touching the digits
+    let (na, nb) = (-ra, -rb);
+    ensure!(v, na.cmp(&nb) == want.reverse(), sig("negref-cmp"), "(-a).cmp(-b) = {} expected {}", ord_name(na.cmp(&nb)), ord_name(want.reverse()));
+    ensure!(v, (na == nb) == (want == Ordering::Equal), sig("negref-eq"), "(-a) == (-b) is {}", na == nb);
+    let want_abs = ma.abs().cmp_val(&mb.abs());
+    ensure!(v, ra.abs().cmp(&rb.abs()) == want_abs, sig("absref-cmp"), "|a|.cmp(|b|) = {} expected {}", ord_name(ra.abs().cmp(&rb.abs())), ord_name(want_abs));
+    ensure!(v, (ra.abs() == rb.abs()) == (want_abs == Ordering::Equal), sig("absref-eq"), "|a| == |b| is {}", ra.abs() == rb.abs());
     // reflexivity
     ensure!(v, a == a.clone() && a.cmp(&a) == Ordering::Equal, sig("reflexive"), "a is not equal to itself");
     // max / min: the value must be the exact max / min
